@@ -51,7 +51,8 @@ PROPS = {
                         "which 'changed the description' note an edit of the description is attributed to is a heuristic of the importer and is not compared",
                         "titles are never blank after clean-up (GitLab forbids blank titles); only system notes the importer knows are generated"],
         "tests": [{"name": "TestC16Import", "quick": 6, "shards_quick": 4, "thorough": 40, "shards": 16, "timeout_quick": 900},
-                  {"name": "TestC16SlowImport", "quick": None, "thorough": None}],
+                  {"name": "TestC16SlowImport", "quick": None, "thorough": None},
+                  {"name": "TestC16ImportWhilePulling", "quick": 12, "thorough": 150, "shards": 2}],
     },
     "C18": {
         "level": "exploration",
@@ -216,7 +217,8 @@ PROPS = {
                 "Non-trivial: a key is in force and the variant is not 'right key'. Distinct: key-count pattern x key-in-force x variant x clock-at-first."
                 "The tested commit is the root, a child with one comment or a child with an empty pack; an altered commit keeps its signature and changes the tree, the parent or the date; mutators rotate keys in place in half of the same-size changes, and a key change that adds no version is a failure.",
         "assumptions": ["go-git stores/returns the signed bytes faithfully (the mock backend only signs the tree hash and is not used)"],
-        "tests": [{"name": "TestC08Signatures", "quick": 500, "shards_quick": 2, "thorough": 3000, "shards": 16}],
+        "tests": [{"name": "TestC08Signatures", "quick": 500, "shards_quick": 2, "thorough": 3000, "shards": 16},
+                  {"name": "TestC08RotationDuringCommit", "quick": 100, "thorough": 1500, "shards": 4}],
     },
     "C09": {
         "level": "exploration",
@@ -234,7 +236,8 @@ PROPS = {
                 "Clock actions (bug activity) move a repository's clocks; an edit whose new version would record clocks behind the previous version must be refused (planned in a quarter of the cases).",
         "assumptions": ["avatar URL validity is not asserted (the statement does not list it)"],
         "tests": [{"name": "TestC09Identities", "quick": 120, "shards_quick": 3, "thorough": 600, "shards": 16},
-                  {"name": "TestC09CraftedChains", "quick": 600, "thorough": 3000, "shards": 2}],
+                  {"name": "TestC09CraftedChains", "quick": 600, "thorough": 3000, "shards": 2},
+                  {"name": "TestC09ForeignFormatting", "quick": 300, "thorough": 5000, "shards": 2}],
     },
     "C07": {
         "level": "exploration",
@@ -638,4 +641,24 @@ _ROUND7_RULES = {
            "the cache reports nothing pending.",
 }
 for _k, _v in _ROUND7_RULES.items():
+    PROPS[_k]["rule"] += " " + _v
+
+_ROUND8_RULES = {
+    "C04": "In a third of TestC04RoundTrip's cases a second handle on the same repository (another process) reads an older bug after every commit.",
+    "C05": "TestC05CLI may move the local references with stock git (git fetch origin 'refs/bugs/*:refs/bugs/*' ...), then pull and write.",
+    "C06": "Scenario edit-many: one commit of 250..369 operations.",
+    "C07": "A third of the cache-level merges run in a repository without a selected user identity: the merge may be refused as a whole, refs stay, no crash.",
+    "C08": "TestC08RotationDuringCommit: key sets before/after (0..2 keys each) rotated on the shared identity object by a hook that runs just before the first storage operation of the author's commit; if Commit returns nil the bug reads back.",
+    "C09": "TestC09ForeignFormatting: 1..4 versions, each compact / with a trailing newline / indented / surrounded by white space; id = hash of the first JSON document; read, merged as new or fast-forwarded with the same id, repeat = nothing.",
+    "C10": "Half of TestC10Cache's cases continue with a second user who commits four comments and two titles in one commit while the first commits three comments and a label add/remove; after the merge snapshot = reference interpretation of the stored DAG = a second read.",
+    "C11": "Action dropindex: the index directory is removed while the cache files stay; reopen.",
+    "C12": "Half of TestC12Evaluate's cases run eight rounds of two simultaneous requests on one bug (close/re-open || comment) under lock-boundary delays before the queries, and ask status:open, status:closed, participant: and actor: explicitly.",
+    "C13": "Half of the populations hold one bug written with indented JSON in another key order (ids = hashes of the stored bytes).",
+    "C14": "Cache mode may load the cache from files, resolve the victim first, and after the removal shrink both caches to 1 and resolve every entity (no panic).",
+    "C15": "From: commands typed at the top, in a linked working tree (git worktree add) or in a sub-directory.",
+    "C16": "TestC16ImportWhilePulling: a colleague imported the same project and pushed; our import's request #0 triggers a pull of that; afterwards one bug per issue in the tracker's state.",
+    "C19": "Worktree: one-shot commands typed in a linked working tree or a sub-directory while the holder runs in the main one.",
+    "C20": "CreateK >= 0: the first page (size 1..3) of allBugs sort:creation-asc is served from a hook inside another user's creation of a bug, the following pages after it; every bug that existed at the start is visited once, in order.",
+}
+for _k, _v in _ROUND8_RULES.items():
     PROPS[_k]["rule"] += " " + _v
